@@ -1,5 +1,7 @@
 // C07 T-gen instantiation: DataIndexes<static column list, DataTraits> (its nested UniqueHash / MultiHash classes and the
-// two-phase AddRaw / RemoveRaw / UpdateRaw), plus one use of every member TEMPLATE the generators read
+// two-phase AddRaw / RemoveRaw / UpdateRaw), plus one use of every member TEMPLATE the generators read, and a DataTable
+// over a static column list whose copy constructor (pvFill), FindByMultiHash (MultiHash::Find) and two-equality Select
+// (pvSelect / pvSelectRec) are instantiated
 #include "momo/DataTable.h"
 namespace c07inst { struct S { int k[3]; int pad; };
 typedef momo::DataColumnListStatic<S, momo::DataColumnInfo<S>, momo::MemManagerDefault> CL; }
@@ -13,5 +15,17 @@ inline void use(DI& di, S* raw, const int& item)
 	std::array<size_t, 2> so{{0, 4}};
 	(void)di.GetFitUniqueHashIndex(so);
 	(void)di.GetFitMultiHashIndex(so);
+}
+struct T2 { int p; int q; };
+MOMO_DATA_COLUMN_STRUCT(T2, p);
+MOMO_DATA_COLUMN_STRUCT(T2, q);
+typedef momo::DataColumnListStatic<T2> CL2;
+typedef momo::DataTable<CL2> Table2;
+inline size_t useTable(const Table2& t)
+{
+	Table2 copy(t);
+	auto bounds = copy.FindByMultiHash(momo::DataMultiHashIndex::empty, CL2::ColumnInfo::MakeEquality(p, 1));
+	auto sel = copy.Select(momo::DataEquality<>().And(p, 1).And(q, 2));
+	return bounds.GetCount() + sel.GetCount();
 }
 }
